@@ -61,6 +61,14 @@ Step ==
          IF j = "agree" THEN nUnspec' = nUnspec
          ELSE IF j = "skip" THEN nUnspec' = nUnspec + 1
          ELSE Bad(j) /\ nUnspec' = nUnspec
+    [] e.ev = "stream" ->
+         \* a concatenation of printed values with trivia: the reference reads exactly exp, then the end
+         LET r == ReadAll(e.text, e.ro) IN
+         IF r.t = "ok" THEN
+              /\ (IF r.vs = e.exp THEN TRUE ELSE Bad("independent reader reads a different sequence of data"))
+              /\ nUnspec' = nUnspec
+         ELSE IF r.t = "unspec" THEN nUnspec' = nUnspec + 1
+         ELSE Bad(<<"independent reader cannot read the stream", r.t>>) /\ nUnspec' = nUnspec
     [] OTHER -> Bad("unknown event") /\ nUnspec' = nUnspec
 
 Next == l <= Len(Rec) /\ Step /\ l' = l + 1
